@@ -493,6 +493,65 @@ Definition serialize_orig := serialize_gen true.
 
 End WithOracle.
 
+(* ------------------------------------------------------------------ sprintbuf with its temporary *)
+(* A print buffer together with the block that holds its bytes.  The growth of the buffer is
+   a realloc request to the ledger; [pb_step] (C19) decides what the buffer looks like. *)
+Record lpb := mklpb { lp_buf : pbuf; lp_blk : nat }.
+
+(* the successful half of [realloc]: a new block replaces b *)
+Definition realloc_granted (b : nat) (s : ast) : res nat :=
+  match remove1 b (live s) with
+  | Some l => Ok (nreq s) (mkast (S (nreq s)) (nreq s :: l))
+  | None => UB
+  end.
+
+(* one print-buffer call on such a buffer: the allocator's answer to the (at most one)
+   request of the call is the oracle's answer to the next request index *)
+Definition lpb_step (o : oracle) (q : lpb) (op : pbop) (s : ast) : res (lpb * Z) :=
+  match pb_step (fun _ => o (nreq s)) (lp_buf q) op with
+  | POk p' r _ =>
+      if size p' =? size (lp_buf q) then Ok (mklpb p' (lp_blk q), r) s      (* no request made *)
+      else match realloc_granted (lp_blk q) s with                           (* the request was granted *)
+           | Ok b s' => Ok (mklpb p' b, r) s'
+           | Fail s' => Fail s'
+           | UB => UB
+           end
+  | PErr _ ENOMEM => Fail (mkast (S (nreq s)) (live s))                      (* realloc returned NULL *)
+  | PErr _ _ => Fail s                                                        (* refused before any request *)
+  | PUB => UB
+  end.
+
+(* sprintbuf(p, fmt, ...) with [out] the formatted bytes:
+     size = vsnprintf(buf, 128, ...);
+     if (size < 0 || size > 127) {
+         if ((size = vasprintf(&t, ...)) < 0) return -1;
+         size = printbuf_memappend(p, t, size);  free(t);
+     } else size = printbuf_memappend(p, buf, size);
+     return size;
+   [flat] = the shape in which both failures of the long branch share one early "return -1"
+   (the negative control: the temporary is then not released when the append fails). *)
+Definition sprintbuf_gen (flat : bool) (o : oracle) (q : lpb) (out : list byte) (s : ast) : res (lpb * Z) :=
+  if zlen out >? 127 then
+    match alloc o s with                          (* vasprintf's result string *)
+    | Ok t s1 =>
+        match lpb_step o q (OpSprintf out) s1 with
+        | Ok (q', r) s2 =>
+            match free t s2 with                  (* free(t) *)
+            | Ok _ s3 => Ok (q', r) s3
+            | Fail s3 => Fail s3
+            | UB => UB
+            end
+        | Fail s2 => if flat then Fail s2 else fail_after (free t s2)
+        | UB => UB
+        end
+    | Fail s1 => Fail s1                          (* vasprintf < 0: return -1 *)
+    | UB => UB
+    end
+  else lpb_step o q (OpSprintf out) s.
+
+Definition sprintbuf := sprintbuf_gen false.
+Definition sprintbuf_flat := sprintbuf_gen true.
+
 (* ------------------------------------------------------------------ the uniform shape of the fault theorems *)
 (* what an operation under an arbitrary allocator may do: complete with a result that meets
    its specification, or refuse leaving the state as it was (up to [same]: counters of
